@@ -140,8 +140,16 @@ def one_call(sim, mc, wd, sc):
     else:
         args = ({names[i]: {xy: set(ps) for xy, ps in tg.items()} for i, (_, tg) in enumerate(sc["bins"])},)
     try:
-        mc.load_application(*args, app_id=sc["app"], wait=bool(sc["wait"]), n_tries=sc["ntries"],
-                            use_count=bool(sc["usecount"]))
+        how = sc.get("how", "kw")
+        if how == "kw":
+            mc.load_application(*args, app_id=sc["app"], wait=bool(sc["wait"]), n_tries=sc["ntries"],
+                                use_count=bool(sc["usecount"]))
+        else:
+            # the application id, whether to wait and the number of tries are contextual arguments: they may come
+            # from enclosing blocks instead of the call
+            with mc(app_id=sc["app"], n_tries=sc["ntries"]):
+                with mc(wait=bool(sc["wait"])):
+                    mc.load_application(*args, use_count=bool(sc["usecount"]))
         outcome = ["return"]
     except machine_controller.SpiNNakerLoadingError as ex:
         ents = []
@@ -321,7 +329,34 @@ def random_scenario(rng):
     return dict(w=w, h=h, ncores=ncores, buf=buf, app=rng.choice((16, 30, 66, 255)), wait=rng.random() < 0.5,
                 ntries=ntries, usecount=usecount, style="two" if nb == 1 and rng.random() < 0.5 else "map",
                 bins=bins, miss=miss, pre=pre, nn_id=rng.choice((0, 0, 1, 60, 124, 125, 126)), label="random",
-                reuse=rng.random() < 0.3)       # the binaries' files are rewritten in place between the loads
+                reuse=rng.random() < 0.3,       # the binaries' files are rewritten in place between the loads
+                how=rng.choice(("kw", "kw", "ctx")))
+
+
+def wide_scenario(rng):
+    """a machine more than 16 chips across, a core requested on every chip of an aligned 4 x 4 block (so that the
+    selection collapses into one coarser region) and on single chips on both sides of it"""
+    w, h = rng.choice(((20, 4), (24, 4), (4, 20), (21, 5)))
+    chips = [(x, y) for x in range(w) for y in range(h)]
+    # (mostly beyond the first 16 x 16 area, so that the coarse region's word is numerically above the fine ones)
+    if w >= h:
+        bx, by = rng.choice([x for x in range(4, w - 3, 4)] + [16, 16, 16]), 0
+    else:
+        bx, by = 0, rng.choice([y for y in range(4, h - 3, 4)] + [16, 16, 16])
+    core = rng.randint(1, 5)
+    tg = {(bx + dx, by + dy): {core} for dx in range(4) for dy in range(4)}
+    for xy in rng.sample([c for c in chips if c not in tg], rng.randint(1, 4)):
+        tg[xy] = {core} if rng.random() < 0.7 else {core, core + 1}
+    buf = rng.choice((64, 256))
+    bins = [(make_binary(rng, buf, 1), tg)]
+    if rng.random() < 0.5:
+        bins.append((make_binary(rng, buf, 1), {xy: {core + 7} for xy in rng.sample(chips, 3)}))
+    ntries = rng.choice((0, 1, 2))
+    pm = rng.choice((0.0, 0.0, 0.1))
+    return dict(w=w, h=h, ncores=18, buf=buf, app=rng.choice((16, 30)), wait=rng.random() < 0.5, ntries=ntries,
+                usecount=rng.random() < 0.5, style="map", bins=bins,
+                miss=[[xy for xy in chips if rng.random() < pm] for _ in range((ntries + 1) * len(bins))],
+                pre=[], nn_id=rng.choice((0, 7)), label="wide machine, coarse and fine regions", how=rng.choice(("kw", "ctx")))
 
 
 def describe(tr):
@@ -385,6 +420,9 @@ def run(chk):
     for _ in range(chk.pick(500, 8000)):
         tr, _n, earlier = run_scenario(wd, random_scenario(rng))
         traces.extend(earlier)
+        traces.append(tr)
+    for _ in range(chk.pick(8, 120)):
+        tr, _n, earlier = run_scenario(wd, wide_scenario(rng))
         traces.append(tr)
     for tr in traces:
         note(chk, tr)
